@@ -39,6 +39,26 @@ LegalMerges(c, d) == {m \in Coarsenings(c) : \A i \in 1..Len(m) : m[i] >= d \/ L
 ReportedFromInputChunks(c, m, d, x) ==
   {Local(m, d, i, x) - d + StartOf(c, i) : i \in {j \in 1..Len(m) : Sees(m, d, j, x) /\ 0 <= Local(m, d, j, x) - d /\ Local(m, d, j, x) - d < c[j]}}
 
+(* ---- half-pixel picks and the extent of a template matcher's landscape (doubled coordinates: x2 = 2 x) ----
+   A template of size s pasted with its first voxel at k has its centre at k + (s - 1) / 2: a half pixel for even s.  The keep-window
+   of _pick_in_chunk_wrapped is HALF OPEN, -1/2 <= local < c_i - 1/2, so a pick lying exactly on a chunk boundary belongs to the
+   chunk that starts there.  Named hazard "closed window" (|local - centre| <= c_i / 2): both neighbours keep such a pick. *)
+InCore2(c, i, x2) == -1 <= x2 - 2 * StartOf(c, i) /\ x2 - 2 * StartOf(c, i) < 2 * c[i] - 1
+InCore2Closed(c, i, x2) == -1 <= x2 - 2 * StartOf(c, i) /\ x2 - 2 * StartOf(c, i) <= 2 * c[i] - 1
+Owners2(c, x2) == {i \in 1..Len(c) : InCore2(c, i, x2)}
+Owners2Closed(c, x2) == {i \in 1..Len(c) : InCore2Closed(c, i, x2)}
+(* The correlation landscape of block i (core c_i plus d on both sides, B = c_i + 2 d voxels) against a template of size s has
+   B - s - 1 samples, sample j at block coordinate (s + 1) / 2 + j, i.e. at  local2 = (s + 1) + 2 j - 2 d  relative to the core.  A
+   maximum search cannot tell a true peak from a slope at the first and the last sample, so both must lie OUTSIDE the keep-window
+   (EdgeOutsideWindow); the depth rule has to guarantee it for even and for odd sizes. *)
+LandFirst2(s, d) == (s + 1) - 2 * d
+LandLast2(s, d, ci) == (s + 1) + 2 * (ci + 2 * d - s - 2) - 2 * d
+InWindow2(l2, ci) == -1 <= l2 /\ l2 < 2 * ci - 1
+EdgeOutsideWindow(s, d, ci) == ~InWindow2(LandFirst2(s, d), ci) /\ ~InWindow2(LandLast2(s, d, ci), ci)
+WindowCovered(s, d, ci) == LandFirst2(s, d) < -1 /\ LandLast2(s, d, ci) >= 2 * ci - 1      \* every pick of the window has both neighbours
+DepthRule(s) == s \div 2 + 2                       \* the code (after the repair)
+DepthRuleCeil(s) == (s + 1) \div 2 + 1             \* named historical rule: ceil(s / 2) + 1 - one pixel short for even s
+
 (* exclusion region of find_maxima: a BALL of radius r (r10 = 10 r) in pixels, not the enclosing cube *)
 CeilDiv10(r10) == (r10 + 9) \div 10
 InBall(o, r10) == 100 * (o[1]*o[1] + o[2]*o[2] + o[3]*o[3]) <= r10 * r10
